@@ -347,6 +347,22 @@ def calls_with_env(f, b, target):
     return out
 
 
+def expand_getter(f, t, depth=0):
+    """a call to a local function that merely returns an expression over its own parameters (an accessor) is replaced
+    by that expression (one level of term-level inlining, on demand)"""
+    from ..core import subst as _subst
+    t0 = peel(t)
+    if depth > 3 or not (isinstance(t0, tuple) and t0[0] == "call" and t0[2] in f.bodies):
+        return t
+    cb = f.bodies[t0[2]]
+    if cb.kind not in ("fn", "assoc_fn") or cb.is_async or len(cb.blocks) > 12 or cb.stores():
+        return t
+    if any(f.call_does_io(c) for c in cb.calls.values() if c.bb in cb.reachable):
+        return t
+    mapping = {cb.param_name(i + 1): a for i, a in enumerate(t0[3]) if i < cb.arg_count}
+    return _subst(cb.local_term(0), mapping)
+
+
 OK_KEEPING = ("Result::<T, E>::map_err", "Result::<T, E>::inspect", "Result::<T, E>::inspect_err")
 
 
